@@ -540,9 +540,18 @@ def check(run):
             if j:
                 run.violation(j[0], "replayed case still fails: " + j[1], rp, found_input=j[0] != "tie",
                               signature="flat replay " + j[1])
-        elif crashes or model != impl:
-            run.violation("tie", "replayed split case still fails", rp, found_input=bool(crashes),
-                          signature="split replay")
+        else:
+            sv = "ok"
+            if impl and not crashes:
+                files = line[2:].split("|")[0].strip()
+                sv = core.run_model("flat-spec", run.casefile(
+                    "split-spec.txt", ["S %s | %s" % (files, " ".join(impl[0].split(" ")[1:]))]))[0]
+            if crashes or sv != "ok":
+                run.violation("spec", "replayed split case still fails: %s" % (sv if not crashes else "crash"),
+                              rp, found_input=True, signature="split replay " + sv)
+            elif model != impl:
+                run.violation("tie", "replayed split case: model and implementation differ", rp,
+                              found_input=False, signature="split replay tie")
         return
     run.cov["rule"] = ("flattened streams with random record sizes / order / stale rewrites / holes / sparse "
                        "positions up to 2^63, plain files and malformed streams, each with reads and chunk "
